@@ -11,6 +11,7 @@ EXPLANATION = (
     "through remove -> list), no other lock guards storage, and no blocking call runs inside a region; every mutating sqlite "
     "storage operation is a single transaction, so the lock-free readers (lookup, count) never observe half of one. "
     'Also decided: every NameServer method touches the storage only under the lock; multi-statement reads of the sqlite storage run in one snapshot; `nsc register` is one safe remote call. '
+    'Also decided (round 7): The storage is used through NameServer only (other code may only close it); MemoryStorage never edits a stored entry in place. '
     "Not decided: linearizability of histories, atomicity inside one storage method."
 )
 
